@@ -2,11 +2,14 @@ package c20
 
 import (
 	"bytes"
+	"errors"
 	"fmt"
 	"io"
 	"net"
 	"net/http"
+	"strings"
 	"sync"
+	"syscall"
 	"time"
 
 	"github.com/cnotch/ipchub/media"
@@ -46,11 +49,30 @@ func requesterFor(mode string) requester {
 type rtspRequester struct {
 	c      *rtspc.Client
 	tracks int
+	addr   string // "" = the in-process server (tests of the classification point it at a stub)
+}
+
+// connectionEnded reports whether err says that the peer ended the connection
+// (FIN, RST, or the stream of bytes stopping inside an item), as opposed to
+// sending something that is no RTSP.
+func connectionEnded(err error) bool {
+	if err == nil {
+		return false
+	}
+	var fe *rtspc.FramingError
+	if errors.As(err, &fe) {
+		return fe.Truncated
+	}
+	return errors.Is(err, io.EOF) || errors.Is(err, io.ErrUnexpectedEOF) || errors.Is(err, syscall.ECONNRESET) || errors.Is(err, syscall.EPIPE)
 }
 
 func (q *rtspRequester) request(path string, arm func()) (string, *media.Stream, string) {
 	s := server()
-	c, err := rtspc.Dial(s.Addr(), bound)
+	addr := s.Addr()
+	if q.addr != "" {
+		addr = q.addr
+	}
+	c, err := rtspc.Dial(addr, bound)
 	if err != nil {
 		return "panic", nil, "machinery: cannot connect to the in-process server: " + err.Error()
 	}
@@ -68,7 +90,12 @@ func (q *rtspRequester) request(path string, arm func()) (string, *media.Stream,
 		if asStatus(err, &se) && se.Method == "DESCRIBE" && se.Resp.Status == 404 {
 			return "nil", nil, ""
 		}
-		return "panic", nil, "the RTSP requester got neither a stream nor 404: " + err.Error()
+		if connectionEnded(err) {
+			// the server hung up on the player while DESCRIBE / SETUP / PLAY was under way:
+			// an orderly close from the requester's point of view, not an answer
+			return "closed", nil, err.Error()
+		}
+		return "panic", nil, "the RTSP requester got neither a stream nor 404 nor a close: " + err.Error()
 	}
 	q.tracks = len(d.Tracks)
 	// ipchub answers PLAY before it attaches the player to the stream; what is
@@ -223,6 +250,10 @@ func (q *httpRequester) request(path string, arm func()) (string, *media.Stream,
 	close(answered)
 	<-fed
 	if err != nil {
+		if connectionEnded(err) || strings.Contains(err.Error(), "EOF") || strings.Contains(err.Error(), "connection reset") {
+			// net/http wraps the end of the connection before / inside the header block
+			return "closed", nil, err.Error()
+		}
 		return "panic", nil, "the HTTP requester got no answer: " + err.Error()
 	}
 	q.resp = resp
